@@ -17,6 +17,8 @@ ASSUMPTIONS = ["frames with a body of at most 65530 bytes (the 16-bit length fie
 LLF = [("sig", "with_signature", "signature"), ("size", "with_size", "size"), ("type", "with_type", "frame_type"),
        ("flags", "with_flags", "flags"), ("crc", "with_crc8", "crc8")]
 HLF = [("version", "with_version", "version"), ("type", "with_type", "control_type"), ("id", "with_id", "id")]
+LLKW = ["sign", "size", "frame_type", "flags", "crc8"]       # keyword of the constructor for the same field
+HLKW = ["version", "type", "id"]
 
 
 def mk_protocol():
@@ -68,6 +70,17 @@ def _bitfields(ctx):
             tab = HLF
         ctx.case((kind, n, k, v), sample=dict(kind=kind, header=n, setter=tab[k][1], value=v, result=impl))
         ctx.count("bitfield-" + kind)
+        # the keyword form of the constructor is the same operation: `Header(n, field=v)` == `Header(n).with_field(v)`
+        kwname = (LLKW if kind == "ll" else HLKW)[k]
+        try:
+            via_ctor = int(type(h0)(n, **{kwname: v}))
+        except TypeError:
+            via_ctor = None            # the constructor has no such keyword (any more): nothing to compare
+        if via_ctor is not None:
+            ctx.count("bitfield-constructor-keyword")
+            if via_ctor != int(h1):
+                ctx.counterexample("bitfield-constructor", dict(kind=kind, header=n, keyword=kwname, value=v), int(h1), via_ctor,
+                                   "the header constructor's keyword form does not set the field as the setter does")
         # observation checker: the set field reads back masked, the others are unchanged
         for j in range(len(tab)):
             want = (v & masks[j]) if j == k else before[j]
